@@ -9,9 +9,9 @@
    malloc'd name buffer E->field (a new one on every rename).  A pointer is
    dangling iff no live entry carries that identity.
 
-   [pinned] is the code as it stands in the frozen /repo (6bdc56b), which contains
-   the repairs C15-1 .. C15-14, the depth bound of _GD_ResolveAlias and the
-   re-resolution of unresolved aliases in _GD_UpdateAliases.
+   [pinned] is the code as it stands in the finally frozen /repo (c107348), which
+   contains the repairs C15-1 .. C15-20, the depth bound of _GD_ResolveAlias and
+   the re-resolution of unresolved aliases in _GD_UpdateAliases.
    Anchors: src/common.c (find/insert), add.c (_GD_Add, _GD_AddAlias),
    parse.c (_GD_ParseFieldSpec insert path, _GD_ResolveAlias,
    _GD_UpdateAliases), del.c (_GD_Delete), name.c (_GD_Rename,
@@ -24,17 +24,11 @@ Import ListNotations.
 Open Scope N_scope.
 
 (* ------------------------------------------------------------------ cfg *)
-(* One repair is proposed but not in the frozen tree: C15-19 (the cached lists of an alias's container are
-   invalidated whenever the alias's resolution changes).  Its effect on the observers is that no cached list
-   is ever stale after an operation that can change an alias resolution; the model renders it by dropping
-   every cached list after add / alias / delete / rename (dropping more lists than the C code does cannot be
-   observed as long as the lists the C code keeps are up to date -- which is what the comparison tests). *)
-Record cfg := mkCfg {
-  fx_xcache : bool;
-  fx_bfrag : bool   (* proposed C15-20: gd_add_alias(D, "parent/sub", ...) puts the alias into the parent's fragment *)
-}.
-Definition pinned := mkCfg false false.   (* the code as it stands in /repo (frozen at 6bdc56b) *)
-Definition fixed  := mkCfg true true.
+(* No repair is pending: every proposed one up to C15-20 is in the finally frozen tree (c107348).  The type
+   is kept so that statements read "for every configuration"; it has a single inhabitant. *)
+Record cfg := mkCfg { }.
+Definition pinned := mkCfg.   (* the code as it stands in /repo (frozen at c107348) *)
+Definition fixed  := mkCfg.
 
 (* ---------------------------------------------------------------- types *)
 Definition T_RAW := 0.  Definition T_LINCOM := 1.  Definition T_LINTERP := 2.
@@ -536,11 +530,11 @@ Definition op_alias (c : cfg) (s : state) (parent : option name) (praw : name) (
                   if is_alias P0 then
                     match by_oid (s_ents s) (e_dist P0) with
                     | Some P => if e_meta P then (s, RUnmodelled)
-                                else go (Some P) (e_name P ++ SLASH :: sub) sub (if fx_bfrag c then e_frag P else frag)
+                                else go (Some P) (e_name P ++ SLASH :: sub) sub (e_frag P)
                     | None => (s, RUnmodelled)
                     end
                   else if e_meta P0 then (s, RUnmodelled)
-                  else go (Some P0) (e_name P0 ++ SLASH :: sub) sub (if fx_bfrag c then e_frag P0 else frag)
+                  else go (Some P0) (e_name P0 ++ SLASH :: sub) sub (e_frag P0)
               end
           end
       end
@@ -914,8 +908,13 @@ Definition op_list (s : state) (parent : option name) (sel flags : N) : state * 
 Definition affixed (s : state) : bool :=
   match eff_aff (fst (s_aff s)), eff_aff (snd (s_aff s)) with [], [] => false | _, _ => true end.
 
-Definition post (c : cfg) (r : state * res) : state * res :=
-  if fx_xcache c then (inval_all (fst r), snd r) else r.
+(* c8788a9: whenever an alias's resolution changes (_GD_ResolveAlias, the reset loop of _GD_UpdateAliases,
+   _GD_ClearDerived) the cached lists of the alias's container are invalidated.  On the observers this means
+   that no cached list is ever stale after an operation that can change an alias resolution; the model
+   renders it by dropping every cached list after add / alias / delete / rename (dropping more lists than
+   the C code does cannot be observed as long as the lists the C code keeps are up to date -- which is
+   what the comparison with the library tests). *)
+Definition post (c : cfg) (r : state * res) : state * res := (inval_all (fst r), snd r).
 
 Definition praw_of (parent : option name) : name := match parent with Some p => p | None => [] end.
 Definition undot_opt (parent : option name) : option name := match parent with Some p => Some (undot p) | None => None end.
